@@ -1,7 +1,8 @@
 // libtopology harness (C13): topology-preserving layout steps on scenes of non-overlapping nodes with straight
 // edges, driven (as in production) through ConstrainedFDLayout + ColaTopologyAddon by dragging one node.
 //   h_topo run <scenes.txt> <out.json>
-// scene line: n (x y w h)*n  m (u v)*m  drag  steps dx dy      (integers; node indices 0-based)
+// scene line: n (x y w h)*n  m (u v)*m  drag  steps dx dy  rz rw rh   (integers; node indices 0-based; rz = -1: no resize,
+//             otherwise node rz is given width rw and height rh about its centre through topology::applyResizes after the drag)
 // After every alg.run() the state is recorded: node rectangles and every edge path as (node, corner) points.
 #include "vtrace.h"
 #include <fstream>
@@ -41,9 +42,9 @@ int main(int argc, char **argv)
         for (auto &g : geo) { in >> g[0] >> g[1] >> g[2] >> g[3]; rs.push_back(new vpsc::Rectangle(g[0], g[0] + g[2], g[1], g[1] + g[3])); }
         int m; in >> m; std::vector<cola::Edge> es(m);
         for (auto &e : es) { int u, v; in >> u >> v; e = std::make_pair((unsigned)u, (unsigned)v); }
-        int drag, steps, dx, dy; in >> drag >> steps >> dx >> dy;
+        int drag, steps, dx, dy, rz, rw, rh; in >> drag >> steps >> dx >> dy >> rz >> rw >> rh;
         vt::J j; j.obj().k("n").i(n).k("edges").arr(); for (auto &e : es) j.arr().i(e.first).i(e.second).end(); j.end();
-        j.k("drag").i(drag).k("dx").i(dx).k("dy").i(dy);
+        j.k("drag").i(drag).k("dx").i(dx).k("dy").i(dy).k("rz").i(rz).k("rw").i(rw).k("rh").i(rh);
         topology::Nodes vs;
         for (size_t i = 0; i < rs.size(); i++) vs.push_back(new topology::Node(i, rs[i]));
         topology::Edges tes;
@@ -81,6 +82,18 @@ int main(int argc, char **argv)
                 }
             }
             for (auto v : vars) delete v;
+            if (rz >= 0) {
+                // what ColaTopologyAddon::handleResizes does for one resized node (no compound constraints, no clusters)
+                vpsc::Rectangle *cur = rs[rz];
+                vpsc::Rectangle target(cur->getCentreX() - rw / 2.0, cur->getCentreX() + rw / 2.0, cur->getCentreY() - rh / 2.0, cur->getCentreY() + rh / 2.0);
+                topology::ResizeMap resizes;
+                resizes.insert(std::make_pair((unsigned)rz, topology::ResizeInfo(vs[rz], &target)));
+                vpsc::Variables xvs, yvs; vpsc::Constraints xcs, ycs;
+                for (size_t i = 0; i < vs.size(); i++) { xvs.push_back(new vpsc::Variable((int)i, rs[i]->getCentreX())); yvs.push_back(new vpsc::Variable((int)i, rs[i]->getCentreY())); }
+                topology::applyResizes(vs, tes, nullptr, resizes, xvs, xcs, yvs, ycs);
+                snapshot(j, vs, tes); dims.push_back(2);
+                for (auto v : xvs) delete v; for (auto v : yvs) delete v; for (auto c : xcs) delete c; for (auto c : ycs) delete c;
+            }
         } catch (vpsc::CriticalFailure &f) { thrown = true; what = f.what(); }
         catch (std::exception &e) { thrown = true; what = e.what(); }
         catch (...) { thrown = true; what = "unknown exception"; }
